@@ -73,6 +73,21 @@ def run(prop, case, exception_is_violation=False):
         out['counters']['exceptions_' + case['kind']] = 1
         if exception_is_violation and case['kind'] not in ('ambig',):
             viol.append(V(f'{prop.lower()}.exception', f"{MC.describe_case(case)} raised {res['error']}"))
+    if prop == 'C03' and res['steps'] and case['kind'] in ('cut', 'virtual', 'coarse_cut'):
+        # these workloads write one dedicated, uniquely labelled pair per unit of base-edge order:
+        # 'exactly that many' bonds must exist between the two coarse nodes
+        cg, aa = res['steps'][0]
+        between = {}
+        for u, v in aa.edges:
+            fu, fv = aa.nodes[u].get('fragid') or [], aa.nodes[v].get('fragid') or []
+            if len(fu) == 1 and len(fv) == 1 and fu != fv:
+                key = frozenset((fu[0], fv[0]))
+                between[key] = between.get(key, 0) + 1
+        for a, b, d in cg.edges(data=True):
+            if between.get(frozenset((a, b)), 0) != d.get('order', 1):
+                viol.append(V('c03.not_exactly_order_many_bonds', f"{MC.describe_case(case)} :: base edge {a}-{b} has order {d.get('order', 1)} "
+                              f"and a dedicated descriptor pair per unit, but {between.get(frozenset((a, b)), 0)} bonds join the two fragments"))
+                break
     feats = tuple(sorted(case['features']))
     out['cls'] = (case['kind'], feats, case.get('nheavy'), case.get('nfrag'))
     out['nontrivial'] = bool(res['steps'])
